@@ -74,10 +74,10 @@ func Run(r *rt.Run) error {
 	total := pow(nopt+1, np)
 
 	type partOut struct {
-		t                      *rt.Trace
-		tabs, nodes, decisions int
-		nontrivial             int
-		samples                []sample
+		t                            *rt.Trace
+		tabs, nodes, keys, decisions int
+		nontrivial                   int
+		samples                      []sample
 	}
 	outs := make([]*partOut, b.parts)
 	var wg sync.WaitGroup
@@ -162,6 +162,23 @@ func Run(r *rt.Run) error {
 						po.nodes++
 					}
 				}
+				// grants given with path tricks: NewUser normalises the keys of the table
+				for i, key := range append(append([][]string{}, abs...), relPaths...) {
+					ks := reqStr[i]
+					u := auth.NewUser("u", nil, false, map[string][]auth.Privilege{ks: {auth.ReadPrivilege}})
+					stored := []string{}
+					for r := range u.Privileges() {
+						stored = append(stored, r)
+					}
+					dec := make([]int, nreq)
+					for q, s := range reqStr {
+						dec[q] = decide(u, s)
+					}
+					t.Event("Key", rt.M{"i": i + 1, "abs": i < len(abs), "key": key, "keystr": ks, "stored": stored, "dec": dec})
+					po.keys++
+					po.decisions += nreq * len(privOrder)
+					po.nontrivial += len(abs)
+				}
 				// resource names
 				in := stringsUpTo(apiAlphabet, b.maxApiLen)
 				strs, out := make([]string, len(in)), make([]string, len(in))
@@ -192,7 +209,7 @@ func Run(r *rt.Run) error {
 	}
 	wg.Wait()
 	m := &rt.Meta{Property: "C20", Tier: r.Tier, Seed: r.Seed, Exhaustive: true}
-	tabs, nodes := 0, 0
+	tabs, nodes, keys := 0, 0, 0
 	for _, po := range outs {
 		if err := po.t.Close(); err != nil {
 			return err
@@ -200,6 +217,7 @@ func Run(r *rt.Run) error {
 		m.TraceFiles = append(m.TraceFiles, po.t.Path())
 		tabs += po.tabs
 		nodes += po.nodes
+		keys += po.keys
 		m.Events += po.decisions
 		m.Distinct += po.nontrivial
 		for _, s := range po.samples {
@@ -208,11 +226,11 @@ func Run(r *rt.Run) error {
 			}
 		}
 	}
-	m.Traces = tabs + nodes + b.nRandom
-	m.Rule = fmt.Sprintf("auth.User.AuthorizeAction on every grant table over %d clean paths (depth<=2 over names x, xx) x {no grant,{none},{read},{write,delete},{all}} with at most %d carriers, every absolute resource of <=%d segments over {x,xx,.,..,''} (%d) plus %d relative ones, all 5 privileges; single-carrier tables with all 32 privilege bitmasks; APIResource/DatabaseResource on every string of <=%d/%d characters; %d seeded random deeper tables. Cases are distinct by construction (enumeration without repetition); non-trivial = non-admin user, non-empty table, absolute resource, privilege other than none",
+	m.Traces = tabs + nodes + keys + b.nRandom
+	m.Rule = fmt.Sprintf("auth.User.AuthorizeAction on every grant table over %d clean paths (depth<=2 over names x, xx) x {no grant,{none},{read},{write,delete},{all}} with at most %d carriers, every absolute resource of <=%d segments over {x,xx,.,..,''} (%d) plus %d relative ones, all 5 privileges; single-carrier tables with all 32 privilege bitmasks; one-grant tables whose key is every resource string of the universe (NewUser must normalise it); APIResource/DatabaseResource on every string of <=%d/%d characters; %d seeded random deeper tables. Cases are distinct by construction (enumeration without repetition); non-trivial = non-admin user, non-empty table, absolute resource, privilege other than none",
 		np, b.maxGranted, maxSegs, len(abs), len(relPaths), b.maxApiLen, b.maxDbLen, b.nRandom)
 	m.Extra = map[string]any{
-		"grant_tables": tabs, "node_tables": nodes, "request_resources": nreq, "random_tables": b.nRandom,
+		"grant_tables": tabs, "node_tables": nodes, "dirty_key_tables": keys, "request_resources": nreq, "random_tables": b.nRandom,
 		"decisions_logged": m.Events, "trace_parts": b.parts, "max_granted": b.maxGranted,
 	}
 	return rt.WriteMeta(r.OutDir, m)
